@@ -75,6 +75,7 @@ def shrink(ops, sig, which, crypto=(), v6=0):
 def scripts_for(ctx: Ctx):
     rng = ctx.rng
     scripts = list(gen.boundary_c13())
+    scripts += gen.family_variants(scripts, every=4) + gen.string_family()[::4]
     for _ in range(ctx.n(600, 12000)):
         scripts.append(gen.random_script(rng, 30, "c13"))
     for _ in range(ctx.n(200, 3000)):
@@ -143,8 +144,10 @@ def evaluate(ctx: Ctx, scripts, which, compare_model=True, crypto_of=None, sampl
         st.hit("outcome", "scripts-with-close" if closes else "scripts-without-close")
         if crypto_of and crypto_of(idx):
             st.hit("outcome", "scripts-over-real-session-cipher")
-        if v6_of(idx):
+        if v6_of(idx) or gen.is_v6(ops):
             st.hit("outcome", "scripts-with-ipv6-4-tuple-peernames")
+        if gen.is_strings(ops):
+            st.hit("outcome", "scripts-with-a-string-characteristic")
         if r.get("loop_errors"):
             st.hit("outcome", "scripts-with-exception-in-loop-callback")
             if len(st.notes) < 3:
